@@ -216,7 +216,22 @@ func finish(cases []Case, out string, st *Stats, start time.Time) {
 	if nw > 16 {
 		nw = 16
 	}
-	results := runCases(cases, nw, 20*time.Second)
+	results := runCases(cases, nw, 30*time.Second)
+	// a HANG or CRASH under a loaded machine proves nothing: run those cases again, one at a time, with a long
+	// deadline, and believe the second answer
+	again := []Case{}
+	for _, c := range cases {
+		if r := results[c.ID]; r == "HANG" || r == "CRASH" {
+			again = append(again, c)
+		}
+	}
+	if len(again) > 0 && len(again) <= 200 {
+		second := runCases(again, 1, 180*time.Second)
+		for id, r := range second {
+			results[id] = r
+		}
+		st.Counts["rerun-alone"] = len(again)
+	}
 	caseLines, implLines, leanLines := []string{}, []string{}, []string{}
 	for _, c := range cases {
 		res := results[c.ID]
